@@ -7,6 +7,8 @@ import BumpverVerif.Driver.V2
 import BumpverVerif.Driver.Rw
 import BumpverVerif.Driver.Cli
 import BumpverVerif.Model.Update
+import BumpverVerif.Model.V1Rewrite
+import BumpverVerif.Driver.V1
 open Lean
 namespace BV.Drv
 
@@ -16,8 +18,21 @@ def optScope (j : Json) (k : String) : Except String (Option TagScope) :=
   | .ok Json.null => .ok none
   | _ => .error s!"missing optional scope field {k}"
 
+def getV1Pairs (j : Json) : Except String (List (Str × Str)) :=
+  match j with
+  | Json.arr a => a.toList.mapM (fun x => match x with
+      | Json.arr #[Json.str vp, Json.str raw] => .ok (vp.toList, raw.toList)
+      | _ => .error "bad pattern pair")
+  | _ => .error "patterns must be a list"
+
 def handleUpdate : Handler := fun op j =>
   match op with
+  | "v1_rewrite_content" => some do
+    -- the LEGACY rewrite path (Model/V1Rewrite.lean): patterns as (version_pattern, raw_pattern) pairs in configuration order
+    let pairs ← getV1Pairs (← j.getObjVal? "patterns")
+    let vi ← getV1Info j "vinfo"
+    let content ← getStr j "content"
+    pure (match v1RewriteContentOfPairs pairs vi content with | .ok s => okStr s | .error e => rwErrJson e)
   | "update_full" => some do
     let scope0 := scopeOf (← getStr j "cfg_scope")
     let cliScope ← optScope j "cli_scope"
